@@ -1,15 +1,15 @@
-SPECIFICATION MCSpec
+SPECIFICATION TableSpec
 CONSTANTS
  BNErrs = {"bnval", "bnptr"}
  Variant = "first_event"
  MCTypes = {"attester"}
+ MCMain = "attester"
  MCIncl = {"proposer"}
  MCPKs = {"a"}
  MCErrs = {"nil", "other"}
  MCRoots = {"x", "y"}
  MCN = 2
- MaxCalls = 4
-INVARIANTS SuccessIffFinal StuckStep ReasonOfStep Dependency Participation AnalysedOnce
-PROPERTIES MCOnlyAtDeadline MCLateDropped
-VIEW View
+ MCSteps = {1}
+ MaxCalls = 0
+INVARIANTS SuccessIffFinal StuckStep ReasonOfStep Dependency Participation ObsSane
 CHECK_DEADLOCK FALSE
